@@ -276,6 +276,18 @@ func TestVerifBoundedPickle(t *testing.T) {
 	l2.Append(inner)
 	l2.Append(starlark.Tuple{inner, l2})
 	check("mutual-lists", l2)
+	// tuples of every arity 0..6 followed by further values (the decoder builds them from its stack)
+	for n := 0; n <= 6; n++ {
+		var tup starlark.Tuple
+		for i := 0; i < n; i++ {
+			tup = append(tup, starlark.MakeInt(i+1))
+		}
+		if tup == nil {
+			tup = starlark.Tuple{}
+		}
+		check(fmt.Sprintf("tuple-%d-then-more", n), starlark.NewList([]starlark.Value{tup, starlark.String("x"), starlark.String("y"), tup}))
+		check(fmt.Sprintf("tuple-%d-in-tuple", n), starlark.Tuple{tup, starlark.String("x"), starlark.Tuple{tup, starlark.None, starlark.None, starlark.None, starlark.None}})
+	}
 	// large containers: batch boundaries, at top level and nested
 	for _, n := range []int{999, 1000, 1001, 2001} {
 		els := make([]starlark.Value, n)
